@@ -49,7 +49,11 @@ def Pending (s : State) (g : GRef) : Prop :=
 def LocalResolved (s : State) (g : GRef) : Prop :=
   ∃ loff, s.labels[g.label]? = some (.bound g.sec loff) ∧ Decodes s.secs g (loff - BitVec.ofNat 64 g.offset + g.rel)
 
-def Status (s : State) (g : GRef) : Prop := (Pending s g ∧ FieldZero s.secs g) ∨ LocalResolved s g
+/-- exactly one of: still pending with a zero field / no longer on any list and designating the label -/
+def Status (s : State) (g : GRef) : Prop := (Pending s g ∧ FieldZero s.secs g) ∨ (¬ Pending s g ∧ LocalResolved s g)
+
+theorem D_irrefl {g : GRef} (hpos : 0 < g.fmt.valueSize) : ¬ D g g := by
+  unfold D; omega
 
 structure Inv (s : State) : Prop where
   cur    : s.cur < s.secs.length
@@ -181,19 +185,19 @@ structure Frame (s s' : State) : Prop where
   secs   : SecsExt s.secs s'.secs
   cur    : s'.cur < s'.secs.length
 
-/-- a status survives any change that keeps pending fixups pending, bound labels bound and the field's bytes -/
+/-- a status survives any change that keeps the pending set, keeps bound labels bound and keeps the field's bytes -/
 theorem status_mono {s s' : State} {g : GRef}
-    (hp : Pending s g → Pending s' g)
+    (hp : Pending s g → Pending s' g) (hp' : Pending s' g → Pending s g)
     (hb : ∀ sec off, s.labels[g.label]? = some (.bound sec off) → s'.labels[g.label]? = some (.bound sec off))
     (hf : field s'.secs g = field s.secs g) (h : Status s g) : Status s' g := by
-  rcases h with ⟨h1, h2⟩ | ⟨loff, h1, h2⟩
+  rcases h with ⟨h1, h2⟩ | ⟨hn, loff, h1, h2⟩
   · left
     refine ⟨hp h1, ?_⟩
     obtain ⟨old, ho, hz⟩ := h2
     exact ⟨old, by rw [hf]; exact ho, hz⟩
   · right
-    obtain ⟨new, hn, hd⟩ := h2
-    exact ⟨loff, hb _ _ h1, new, by rw [hf]; exact hn, hd⟩
+    obtain ⟨new, hn', hd⟩ := h2
+    exact ⟨fun hx => hn (hp' hx), loff, hb _ _ h1, new, by rw [hf]; exact hn', hd⟩
 
 theorem Inv.frame {s s' : State} (h : Inv s) (f : Frame s s') : Inv s' := by
   refine ⟨f.cur, ?_, ?_, ?_, ?_, ?_, ?_, ?_⟩
@@ -201,7 +205,8 @@ theorem Inv.frame {s s' : State} (h : Inv s) (f : Frame s s') : Inv s' := by
   · rw [f.ghost]; intro g hg; exact (h.inb g hg).ext f.secs
   · rw [f.ghost]; exact h.disj
   · rw [f.ghost]; intro g hg
-    refine status_mono ?_ ?_ (field_ext f.secs (h.inb g hg)) (h.status g hg)
+    refine status_mono ?_ ?_ ?_ (field_ext f.secs (h.inb g hg)) (h.status g hg)
+    · unfold Pending; rw [f.labels, f.fixups]; exact id
     · unfold Pending; rw [f.labels, f.fixups]; exact id
     · rw [f.labels]; intro _ _ h; exact h
   · rw [f.labels, f.ghost]; exact h.lab
